@@ -1156,7 +1156,12 @@ func (f *Frame) execStore(in *ssa.Store, st *State) {
 	}
 	e.guardCheck(f, st, l, true, in.Pos())
 	e.funcFieldStore(f, st, in, v)
+	e.storeAllocName = ""
+	if a, ok := in.Addr.(*ssa.Alloc); ok && a.Heap {
+		e.storeAllocName = a.Comment
+	}
 	e.siteAsserts(f, st, "store", l, v, in.Pos())
+	e.storeAllocName = ""
 	e.store(st, l, term)
 	if v.Fn != nil && l.Kind == LCell {
 		// remember closures stored in local cells
